@@ -59,6 +59,10 @@ def make_scenario(rnd, counts, nues_choices=None, fault=None, opts=None):
     # for every UE of the run (scenario assumption, DESIGN section 3.2 OnePsi)
     base = rnd.randrange(0, 10 ** max(msin_len - 4, 0)) if msin_len > 4 else 0
     low = rnd.randrange(1, max(2, 16 - nreg)) if msin_len >= 4 else rnd.randrange(1, 10)
+    if opts.get("free_msin") and msin_len >= 5 and counts["pdu"] == 0:
+        # registration-only runs need no PDU session identity: let the subscriber block cross a multiple of 10^4
+        low = 10000 - rnd.randrange(1, nreg + 1) if nreg > 1 else rnd.choice([9999, 0, rnd.randrange(10000)])
+        base = max(base, 1) if low == 0 else base
     msin_val = base * 10000 + low if msin_len >= 4 else low
     msin = str(msin_val).zfill(msin_len)[-msin_len:]
     imsi = mcc + mnc + msin
